@@ -159,6 +159,11 @@ _run_without_compiled = run
 
 def run(ctx):
     _run_without_compiled(ctx)
+    from tools import arrayharness as _AH
+    import numpy as _np
+    with _np.errstate(all="ignore"):
+        ctx.coverage["evaluations"] = ctx.coverage.get("evaluations", 0) + _AH.spelling_lattice(ctx, ctx.seed)
+    ctx.coverage["correspondences"]["every spelling of every coordinate through every array constructor (incl. Awkward arrays that keep the spelled field names): getters, synonyms and conversions == vector.obj"] = {"ok": not any(f["site"].startswith("spelling:") for f in ctx.failures)}
     from tools import nbrows
     nbrows.check(ctx, ['px', 'py', 'pt', 'pt2', 'pz', 'pseudorapidity', 'p', 'p2', 'E', 'energy', 'E2', 'energy2', 'M', 'mass', 'M2', 'mass2', 'Et', 'transverse_energy', 'Et2', 'transverse_energy2', 'Mt', 'transverse_mass', 'Mt2', 'transverse_mass2'], 'the momentum synonyms')
 
